@@ -37,6 +37,7 @@ type proc struct {
 	seq     int
 	log     io.Writer
 	dead    bool
+	lastErr string
 	tmoMs   int
 }
 
@@ -54,6 +55,8 @@ type Solver struct {
 	NUnsat    int
 	NUnknown  int
 	Errors    int
+	ErrorRetries int
+	ErrorSample  string // first (error ...) line seen, for the evidence
 	Restarts  int
 	Fallbacks int
 	FallbackOK int
@@ -284,6 +287,14 @@ func (s *proc) check(pc []*Term, extra *Term, wantModel bool) (Result, map[strin
 	lines := s.sync()
 	wd.Stop()
 	res, bad := parseResult(lines)
+	if bad {
+		for _, l := range lines {
+			if strings.Contains(l, "error") {
+				s.lastErr = l
+				break
+			}
+		}
+	}
 	var model map[string]uint64
 	if res == Sat && wantModel {
 		model = s.getModel(varsOf(append(append([]*Term(nil), pc...), extra)))
@@ -320,6 +331,15 @@ func (s *Solver) Check(pc []*Term, extra *Term, wantModel bool) (Result, map[str
 	}
 	t0 := time.Now()
 	res, model, bad := p.check(pc, extra, wantModel)
+	if bad && !p.dead {
+		// the solver printed an (error ...) line: its assertion stack can no longer be trusted, so the
+		// process is discarded and the query retried on a fresh one
+		s.ErrorRetries++
+		if p.cmd != nil && p.cmd.Process != nil {
+			p.cmd.Process.Kill()
+		}
+		p.dead = true
+	}
 	if p.dead {
 		// the process was killed by the watchdog (or died): restart and retry once
 		p.cmd.Wait()
@@ -327,10 +347,21 @@ func (s *Solver) Check(pc []*Term, extra *Term, wantModel bool) (Result, map[str
 		if np, err := startProc(s.kind, s.primaryLogic, s.ctx, s.FastMs); err == nil {
 			s.bv = np
 			res, model, bad = np.check(pc, extra, wantModel)
+			if bad {
+				// still an error on a fresh process: an encoding problem, never a verdict
+				res, model = Unknown, nil
+				if np.cmd != nil && np.cmd.Process != nil {
+					np.cmd.Process.Kill()
+				}
+				np.dead = true
+			}
 		}
 	}
 	if bad {
 		s.Errors++
+	}
+	if s.ErrorSample == "" && p.lastErr != "" {
+		s.ErrorSample = p.lastErr
 	}
 	if res == Unknown && !s.NoFallback {
 		s.Fallbacks++
